@@ -368,6 +368,10 @@ pub enum Ev {
     OfferRouter,
     /// member (c, j) answers and its answer names a router address, the own id and one ordinary node
     AnswerNamingRouter(usize, usize),
+    /// a good node on a router's IP address but another port is offered (it is not a router)
+    OfferRouterNeighbour,
+    /// member (c, j) answers and names 9 nodes: 8 inadmissible ones (router address) and then member (c, 11)
+    AnswerNamingMany(usize, usize),
     Advance(u64),
 }
 
@@ -378,6 +382,8 @@ pub fn ev_json(e: &Ev) -> Value {
         Ev::LocalRequest(c, j) => json!({"ev":"LocalRequest","c":c,"j":j}),
         Ev::RemoteRequest(c, j) => json!({"ev":"RemoteRequest","c":c,"j":j}),
         Ev::AnswerNamingRouter(c, j) => json!({"ev":"AnswerNamingRouter","c":c,"j":j}),
+        Ev::OfferRouterNeighbour => json!({"ev":"OfferRouterNeighbour"}),
+        Ev::AnswerNamingMany(c, j) => json!({"ev":"AnswerNamingMany","c":c,"j":j}),
         Ev::OfferOwnId => json!({"ev":"OfferOwnId"}),
         Ev::OfferRouter => json!({"ev":"OfferRouter"}),
         Ev::Advance(ms) => json!({"ev":"Advance","ms":ms}),
@@ -392,6 +398,8 @@ pub fn ev_parse(v: &Value) -> Ev {
         "LocalRequest" => Ev::LocalRequest(c, j),
         "RemoteRequest" => Ev::RemoteRequest(c, j),
         "AnswerNamingRouter" => Ev::AnswerNamingRouter(c, j),
+        "OfferRouterNeighbour" => Ev::OfferRouterNeighbour,
+        "AnswerNamingMany" => Ev::AnswerNamingMany(c, j),
         "OfferOwnId" => Ev::OfferOwnId,
         "OfferRouter" => Ev::OfferRouter,
         _ => Ev::Advance(v["ms"].as_u64().unwrap_or(0)),
@@ -400,6 +408,10 @@ pub fn ev_parse(v: &Value) -> Ev {
 
 pub fn router_addr() -> SocketAddr {
     "10.250.0.1:6881".parse().unwrap()
+}
+/// A node that shares the router's IP address but not its port.
+pub fn router_neighbour(local: InfoHash) -> NodeHandle {
+    NodeHandle::new(member(local, 0, 76).id, "10.250.0.1:7000".parse().unwrap())
 }
 
 pub struct Ctx {
@@ -465,6 +477,16 @@ impl Ctx {
                 ];
                 n.table.add_nodes(Node::as_good(h.id, h.addr), &named);
             }
+            Ev::OfferRouterNeighbour => {
+                let h = router_neighbour(self.local);
+                n.table.add_node(Node::as_good(h.id, h.addr));
+            }
+            Ev::AnswerNamingMany(c, j) => {
+                let h = member(self.local, c, j);
+                let mut named: Vec<NodeHandle> = (0..8).map(|k| NodeHandle::new(member(self.local, 1, 60 + k).id, router_addr())).collect();
+                named.push(member(self.local, c, 11));
+                n.table.add_nodes(Node::as_good(h.id, h.addr), &named);
+            }
             Ev::OfferOwnId => {
                 n.table.add_node(Node::as_good(self.local, "10.9.9.9:1".parse().unwrap()));
             }
@@ -482,6 +504,22 @@ impl Ctx {
         set_clock(n.now);
         let mut class = 0u8;
         if self.check_c08 {
+            if let Ev::AnswerNamingMany(c, j) = *e {
+                // two offers in one call: the answering node, then the only admissible name (9th in the list)
+                if let Err((signature, what)) = shape_invariants(&n.table) {
+                    return Step::Violation { signature, what };
+                }
+                let h = member(self.local, c, j);
+                let mut mid = s.clone();
+                mid.table.add_node(Node::as_good(h.id, h.addr));
+                if let Err((signature, what)) = offer_oracle(&s.table, &mid.table, &h, NodeStatus::Good) {
+                    return Step::Violation { signature, what };
+                }
+                return match offer_oracle(&mid.table, &n.table, &member(self.local, c, 11), NodeStatus::Questionable) {
+                    Ok(c) => Step::Next(n, c),
+                    Err((signature, what)) => Step::Violation { signature: format!("{signature} hearsay-at-position-9"), what },
+                };
+            }
             if let Err((signature, what)) = shape_invariants(&n.table) {
                 return Step::Violation { signature, what };
             }
@@ -490,6 +528,7 @@ impl Ctx {
                 Ev::OfferHearsay(c, j) => Some((member(self.local, c, j), NodeStatus::Questionable)),
                 // the named router / own id are inadmissible: judged as the offer of the answering node alone
                 Ev::AnswerNamingRouter(c, j) => Some((member(self.local, c, j), NodeStatus::Good)),
+                Ev::OfferRouterNeighbour => Some((router_neighbour(self.local), NodeStatus::Good)),
                 Ev::OfferOwnId => Some((NodeHandle::new(self.local, "10.9.9.9:1".parse().unwrap()), NodeStatus::Good)),
                 Ev::OfferRouter => Some((NodeHandle::new(member(self.local, 1, 77).id, router_addr()), NodeStatus::Good)),
                 _ => None,
@@ -577,8 +616,10 @@ pub fn alphabet(classes: &[usize], members: usize, req_members: usize, steps: &[
     }
     v.push(Ev::OfferOwnId);
     v.push(Ev::OfferRouter);
+    v.push(Ev::OfferRouterNeighbour);
     for &c in classes.iter().take(2) {
         v.push(Ev::AnswerNamingRouter(c, 3));
+        v.push(Ev::AnswerNamingMany(c, 3));
     }
     for s in steps {
         v.push(Ev::Advance(*s));
